@@ -493,8 +493,16 @@ func (e *Engine) runUnit(f *fx, c *Contract) {
 			g := f.specBool(en, env)
 			f.oblige("ensures", fmt.Sprintf("ensures%s@ret#%d", clauseName(en, k), i), g, en.Props, en.Where+" / "+where, en.Src)
 		}
+		// check clauses are assertions at the return statement: besides parameters and results they may name
+		// the function's locals (their values at that return)
+		cenv := *env
+		if r.block != nil {
+			f.curBlock, f.curIdx = r.block, r.idx
+			cenv.f = f
+			cenv.localsFallback = true
+		}
 		for k, en := range c.Checks {
-			g := f.specBool(en, env)
+			g := f.specBool(en, &cenv)
 			f.oblige("ensures", fmt.Sprintf("check%s@ret#%d", clauseName(en, k), i), g, en.Props, en.Where+" / "+where, en.Src)
 		}
 	}
@@ -542,7 +550,7 @@ func (e *Engine) runUnit(f *fx, c *Contract) {
 			if n != cs.Count {
 				g = tFalse
 			}
-			f.oblige("callsite-count", fmt.Sprintf("callsite-count:%s", cs.Callee), g, nil, cs.Where, fmt.Sprintf("expected %d static call sites of %s, found %d", cs.Count, cs.Callee, n))
+			f.oblige("callsite-count", fmt.Sprintf("callsite-count:%s", cs.Callee), g, cs.Props, cs.Where, fmt.Sprintf("expected %d static call sites of %s, found %d", cs.Count, cs.Callee, n))
 		}
 	}
 	if c != nil && !c.NoReturn && len(exitConds) > 0 {
@@ -562,6 +570,8 @@ func countCallSites(fn *ssa.Function, key string) int {
 					n++
 				} else if c.IsInvoke() && "("+typeKeyString(c.Value.Type())+")."+c.Method.Name() == key {
 					n++
+				} else if sf == nil && !c.IsInvoke() && "dynamic:"+typeKeyString(c.Value.Type()) == key {
+					n++ // a call of a func value
 				}
 			}
 		}
